@@ -231,12 +231,39 @@ def error_conversions(F, R):
     R.floor('error conversions between builder error enums with shared variant names', n, 18)
 
 
+def openers_do_not_own(F, R):
+    """Opening an EXISTING static storage of a service (static config, node details, type definition) must not make the opener its owner while
+    the open can still fail: a storage that is dropped with ownership removes the file.  Either the builder chain says has_ownership(false)
+    or no error exit is reachable on the Ok arm of open() before release_ownership() ('an incompatible open leaves the service untouched')."""
+    n = 0
+    for s_ in F.callers_of(r'static_storage::StaticStorageBuilder::open$'):
+        f = s_.fn
+        if f.crate != 'iceoryx2' or f.id.startswith('iceoryx2::testing'):
+            continue
+        n += 1
+        chain = sym_nstr(sym(f, s_.args[0]))
+        m_ = re.search(r'has_ownership\((?:.*), (\w+)\)', chain)
+        disowned = bool(m_) and m_.group(1) in ('0', 'false')
+        rel = f.calls(r'::release_ownership$')
+        bad = []
+        if not disowned:
+            for b in lib.switches_on_result_of(f, s_, lib.TRY_BRANCH):
+                for lab, tgt in lib.arm_blocks(f, b, lambda l: l in ('Ok', 'Continue'), F):
+                    for e in f.err_exit_sites():
+                        if f.edge_dominates(b, tgt, e.b) and f.exists_path(core.Site(f, tgt, -1, ['arm']), [e], rel) is not None:
+                            bad.append(e)
+        R.ob('NO-ERR-AFTER', 'NO-ERR-AFTER::%s::opened-storage-not-owned-while-open-can-fail' % fnkey(f), disowned or not bad,
+             'open(%s): %s' % (chain[:70], 'has_ownership(false)' if disowned else ('%d error exit(s) are reachable after the storage was opened WITH ownership and before release_ownership(): dropping it there removes the live service\'s file (lines %s)' % (len(bad), sorted(set(e.line for e in bad))[:6]) if bad else 'owned, but no error exit before release_ownership()')), s_.where, f)
+    R.floor('static storage open sites in iceoryx2', n, 5)
+
+
 def check(F, R, tier):
     no_err_after_release(F, R)
     creation_registration(F, R)
     drop_rules(F, R)
     verify_cfg(F, R)
     error_conversions(F, R)
+    openers_do_not_own(F, R)
     # open(): the one step that can still fail (open_service_resource) precedes the node registration (C04's chain, also a C06 clause:
     # 'a failed open leaves the service untouched')
     from . import C04 as _C04
